@@ -2227,11 +2227,13 @@ impl<Front: SocketHandler> ConnectionH2<Front> {
                         // against highest_peer_stream_id (client-initiated).
                         // For Client position, compare against last_stream_id
                         // (our own initiated streams) since the peer never
-                        // initiates streams on a backend connection.
+                        // initiates streams on a backend connection: an even
+                        // identifier was never promised (push is disabled) and
+                        // stays idle, whatever its value.
                         let is_closed_stream = if self.position.is_server() {
                             header.stream_id <= self.highest_peer_stream_id
                         } else {
-                            header.stream_id < self.last_stream_id
+                            header.stream_id & 1 == 1 && header.stream_id < self.last_stream_id
                         };
                         if is_closed_stream {
                             match header.frame_type {
